@@ -11,6 +11,7 @@ from . import ops
 from .ctx import RaiseEx
 from .interp import Closure, BoundMethod, SymMethod, StubObj, Coro
 from .values import (
+    set_term, ViewList,
     SV, SInt, SBool, SReal, SBytes, SStr, SSeq, SEnum, SOpaque, SObj, SymRecDict, Unsupported,
     Int, Bool, Real, Bytes, ByteArray, Str, ListOf, TupleOf, sort_of, has_sym, ISEQ, bytes_lit,
 )
@@ -63,6 +64,30 @@ def pytype_of(v):
 def install(env):
     stub = env.stub
     method = env.method
+
+    # ------------------------------------------------------------------ quantifiers of the contract language
+    from . import api as _api
+
+    def _quant(it, lo, hi, pred, is_forall):
+        if not any(isinstance(x, SV) for x in (lo, hi)):
+            if hi - lo <= 64:
+                vals = [ops.truth_term(it.call(pred, [j], {})) for j in range(lo, hi)]
+                return ops.mk_bool(ops.t_and(*vals) if is_forall else ops.t_or(*vals))
+        j = it.ctx.fresh("q", z3.IntSort())
+        it.ctx.pure += 1
+        try:
+            body = ops.truth_term(it.call(pred, [SInt(j)], {}))
+        finally:
+            it.ctx.pure -= 1
+        if isinstance(body, bool):
+            body = z3.BoolVal(body)
+        rng = z3.And(ops.int_term(lo) <= j, j < ops.int_term(hi))
+        if is_forall:
+            return SBool(z3.ForAll([j], z3.Implies(rng, body)))
+        return SBool(z3.Exists([j], z3.And(rng, body)))
+
+    stub(_api.forall, lambda it, lo, hi, pred: _quant(it, lo, hi, pred, True))
+    stub(_api.exists, lambda it, lo, hi, pred: _quant(it, lo, hi, pred, False))
 
     # ------------------------------------------------------------------ len / bool / type
     @stub(len)
@@ -514,14 +539,14 @@ def install(env):
         xt = ops.int_term(x)
         if not it.ctx.branch(z3.And(xt >= 0, xt <= 255)):
             it.raise_exc(ValueError, "byte must be in range(0, 256)")
-        b.term = z3.simplify(z3.Concat(b.term, z3.Unit(xt)))
+        set_term(b, z3.Concat(b.term, z3.Unit(xt)))
 
     @method(SBytes, "extend")
     def _extend(it, b, x):
         if not b.mutable:
             it.raise_exc(AttributeError, "'bytes' object has no attribute 'extend'")
         if ops.is_byteslike(x):
-            b.term = z3.simplify(z3.Concat(b.term, ops.bytes_term(x)))
+            set_term(b, z3.Concat(b.term, ops.bytes_term(x)))
             return
         for v in it.iterate(x):
             _append(it, b, v)
@@ -539,12 +564,12 @@ def install(env):
         e = z3.simplify(b.term[i])
         if not z3.is_int_value(e):
             it.ctx.assume(z3.And(e >= 0, e <= 255))
-        b.term = z3.simplify(z3.Concat(z3.Extract(b.term, z3.IntVal(0), i), z3.Extract(b.term, i + 1, n - i - 1)))
+        set_term(b, z3.Concat(z3.Extract(b.term, z3.IntVal(0), i), z3.Extract(b.term, i + 1, n - i - 1)))
         return ops.mk_int(e)
 
     @method(SBytes, "clear")
     def _clear(it, b):
-        b.term = z3.Empty(ISEQ)
+        set_term(b, z3.Empty(ISEQ))
 
     @method(SBytes, "hex")
     def _hex(it, b, *a):
@@ -636,12 +661,12 @@ def install(env):
     # ------------------------------------------------------------------ symbolic list methods
     @method(SSeq, "append")
     def _sappend(it, s, x):
-        s.term = z3.simplify(z3.Concat(s.term, z3.Unit(s.elem.box(x))))
+        set_term(s, z3.Concat(s.term, z3.Unit(s.elem.box(x))))
 
     @method(SSeq, "extend")
     def _sextend(it, s, xs):
         if isinstance(xs, SSeq):
-            s.term = z3.simplify(z3.Concat(s.term, xs.term))
+            set_term(s, z3.Concat(s.term, xs.term))
         else:
             for x in it.iterate(xs):
                 _sappend(it, s, x)
@@ -656,7 +681,7 @@ def install(env):
             it.raise_exc(IndexError, "pop index out of range")
         e = s.term[i]
         r = ops.unbox_elem(it, s.elem, z3.simplify(e))
-        s.term = z3.simplify(z3.Concat(z3.Extract(s.term, z3.IntVal(0), i), z3.Extract(s.term, i + 1, n - i - 1)))
+        set_term(s, z3.Concat(z3.Extract(s.term, z3.IntVal(0), i), z3.Extract(s.term, i + 1, n - i - 1)), structural=True)
         return r
 
     @method(SSeq, "copy")
